@@ -196,7 +196,7 @@ def native_confirm(task, viol):
     if kind in ('memory', 'uncaught_exception', 'terminate', 'trap', 'unreachable'):
         bad = nr['rc'] != 0 or not nr['done']
         return bad, 'native rc=%s %s' % (nr['rc'], nr['stderr'][-600:].replace('\n', ' | '))
-    if kind == 'deadlock':
+    if kind in ('deadlock', 'hang'):
         return nr['timeout'], 'native run %s' % ('timed out (hang)' if nr['timeout'] else 'completed')
     if kind == 'assert':
         return viol['msg'] in nr['asserts'], 'native asserts: %r' % nr['asserts'][:4]
@@ -375,9 +375,10 @@ def run_property(pid, tasks, tier, seed, meta):
     confirmed = []
     unconfirmed = []
     per_task_count = {}
+    max_replays = int(os.environ.get('VERIF_MAX_REPLAYS', '12'))
     for t, v, k in new_viol:
         c = per_task_count.get(t.tid, 0)
-        if c >= 3:
+        if c >= 2 or len(confirmed) + len(unconfirmed) >= max_replays:
             continue
         per_task_count[t.tid] = c + 1
         try:
